@@ -661,7 +661,12 @@ func runSync(t *testing.T, s SyncScenario, c03 bool) (res Result) {
 	return res
 }
 
-func runC07(t *testing.T, s SyncScenario) Result { return runSync(t, s, false) }
+func runC07(t *testing.T, s SyncScenario) Result {
+	if s.Sched != nil {
+		return runSyncSched(t, *s.Sched)
+	}
+	return runSync(t, s, false)
+}
 func runC03(t *testing.T, s SyncScenario) Result {
 	if s.Sched != nil {
 		return runSyncSched(t, *s.Sched)
